@@ -128,6 +128,7 @@ def run_property(prop, tier, keep=False, only=None, jobs=16, write_evidence=True
                 res = kani_run.classify(data, out, harnesses, killed)
                 stubs = kani_run.stubs_applied(out)
                 trusted.update("kani stub (assumed contract): " + s for s in stubs)
+                functions.update("contract reused via stub_verified: " + s for s in kani_run.verified_stubs(out))
                 if data is None:
                     # build failure: on a changed tree this is a lost anchor / type error, never a violation
                     tail = "\n".join(l for l in out.split("\n") if l.startswith("error") or "-->" in l)[:3000]
